@@ -257,11 +257,11 @@ Section DEProofs.
 
   (* C01 + C04 for both DE solvers, for every clean sequence of API operations *)
   Theorem de_run_ok : forall ops sc,
-    Forall (clean_op N _ de_ok_in false) ops -> P_de (fst sc) (snd sc) ->
+    Forall (clean_op N _ de_ok_in false false) ops -> P_de (fst sc) (snd sc) ->
     P_de (fst (run N inf _ _ A sc ops)) (snd (run N inf _ _ A sc ops)).
   Proof.
-    apply (run_joint N inf _ _ A P_de de_ok_in false).
-    - intros s s' c H1 H2 _. apply P_de_frame; assumption.
+    apply (run_joint N inf _ _ A P_de de_ok_in false false).
+    - intros s s' c H1 H2 _ _. apply P_de_frame; assumption.
     - intros s c i [Hd _] H. cbn [a_decorate de_algo]. unfold de_decorate. rewrite Hd. exact H.
     - intros s c i. apply P_de_step.
     - intros s c H. cbn [a_finalize de_algo fst snd]. eapply P_de_frame; [| |exact H]; cbn; auto using app_nil_r.
@@ -338,7 +338,7 @@ Section DEResult.
   Qed.
 
   Theorem de_result_constrained : forall ops sc,
-    Forall (clean_op N _ (de_ok_in N npop) false) ops -> P_de N inf npop (fst sc) (snd sc) -> Inv_cons N (fst sc) ->
+    Forall (clean_op N _ (de_ok_in N npop) false false) ops -> P_de N inf npop (fst sc) (snd sc) -> Inv_cons N (fst sc) ->
     let r := run N inf _ _ (de_algo N inf de2) sc ops in
     constrained_call (fst r) (de_best N inf (snd r)) /\ Forall (constrained_call (fst r)) (members N (snd r)).
   Proof.
